@@ -69,7 +69,7 @@ deriving Repr, DecidableEq
     (Go keeps the partial list in `m.Attributes` when it returns an error). -/
 def decodeLoop (mem : Bytes) (size : Nat) (offset : Nat) (b : Sl) (acc : List View) :
     List View × Outcome Unit :=
-  if h : offset < size then
+  if _h : offset < size then
     if b.len < attributeHeaderSize then (acc, .err .attrHeader) else
     -- b[0:2], b[2:4]
     match b.sub? mem.length 0 2, b.sub? mem.length 2 4 with
